@@ -358,6 +358,27 @@ def wall_velocities(rng, h, n):
 EPS = 2.220446049250313e-16
 
 
+class time_limit:
+    """a call into the solvers that does not come back within `seconds` is a failing input
+    (TimeoutError), never a hung check"""
+
+    def __init__(self, seconds):
+        self.seconds = seconds
+
+    def __enter__(self):
+        import signal
+
+        def handler(signum, frame):
+            raise TimeoutError("no answer within %g s" % self.seconds)
+        self.old = signal.signal(signal.SIGALRM, handler)
+        signal.setitimer(signal.ITIMER_REAL, self.seconds)
+
+    def __exit__(self, *a):
+        import signal
+        signal.setitimer(signal.ITIMER_REAL, 0)
+        signal.signal(signal.SIGALRM, self.old)
+
+
 def same(a, b, ulps=4):
     return abs(a - b) <= ulps * EPS * max(abs(a), abs(b))
 
@@ -1175,9 +1196,14 @@ def run(ctx):
             pass
         for vw in vws:
             try:
-                check_point(ctx, case, th, h, vw, stats)
-                if case["kind"] == "template":
-                    check_template_class(ctx, case, th, h, vw)
+                with time_limit(120):
+                    check_point(ctx, case, th, h, vw, stats)
+                    if case["kind"] == "template":
+                        check_template_class(ctx, case, th, h, vw)
+            except TimeoutError as ex:
+                ctx.fail_input("findHydroBoundaries / findMatching(vw=%.9g): %s [%s]" % (
+                    vw, ex, case["kind"]), dict(case=case, vw=vw, kind="timeout"),
+                    key="timeout")
             except Exception:
                 ctx.log("harness exception at", json.dumps(case), vw,
                         traceback.format_exc())
